@@ -136,6 +136,11 @@ def run_sym(modname, fnname, timeout, twin_only=False):
             res["message"] = "Unable to meet precondition: " + "; ".join(m.message for m in msgs)
         elif vs == VerificationStatus.CONFIRMED:
             res["status"] = "confirmed"
+        elif vs == VerificationStatus.REFUTED and any("NotDeterministic" in (m.message or "") for m in msgs):
+            # CrossHair saw two different executions for the same decisions (harness or library state leaking between
+            # paths): no verdict, never a counterexample
+            res["status"] = "unknown"
+            res["message"] = "NotDeterministic reported by CrossHair: " + "; ".join(m.message for m in msgs)[:300]
         elif vs == VerificationStatus.REFUTED:
             res["status"] = "refuted"
             res["message"] = "; ".join(m.message for m in msgs)[:2000]
